@@ -158,6 +158,19 @@ def scenarios(prop, tier):
         S.append(("warm+up9+up9-iws3", uploads([None, 9, 9]), dict(init_settings={SC.INITIAL_WINDOW_SIZE: 3}, window=3, wu_unit=2, **W), {}))
         S.append(("warm+up9+up9-iws3-early-head", uploads([None, 9, 9]), dict(init_settings={SC.INITIAL_WINDOW_SIZE: 3}, window=3, wu_unit=2, early_head=True, **W), {}))
         S.append(("warm+up20-iws7-then-12-then-2", uploads([None, 20]), dict(init_settings={SC.INITIAL_WINDOW_SIZE: 7}, settings=[{"iws": 12}, {"iws": 2}], window=7, wu_unit=5, **W), {}))
+        # a body given as an ITERATOR whose chunks are handed over one by one (gated), with something else
+        # moving the windows BETWEEN two chunks: a SETTINGS frame that lowers INITIAL_WINDOW_SIZE, read by
+        # another stream's reader; a second upload using up what is left of the stream windows' credit
+        def gated(i, parts):
+            body = bytes((j * 3 + i) % 251 for j in range(sum(parts)))
+            out, pos = [], 0
+            for n in parts:
+                out.append(body[pos : pos + n])
+                pos += n
+            return dict(name=f"r{i}", url=f"http://a.test/u{i}", method="POST", headers=[(b"Content-Length", b"%d" % len(body))], content=("gated", out))
+
+        S.append(("warm+gatedup343-iws7-then-2+get", [dict(name="r1", url="http://a.test/1"), gated(2, [3, 4, 3]), dict(name="r3", url="http://a.test/3")], dict(init_settings={SC.INITIAL_WINDOW_SIZE: 7}, settings=[{"iws": 2}], window=7, wu_unit=5, **W), {}))
+        S.append(("warm+gatedup22+gatedup33-iws5-then-3", [dict(name="r1", url="http://a.test/1"), gated(2, [2, 2]), gated(3, [3, 3])], dict(init_settings={SC.INITIAL_WINDOW_SIZE: 5}, settings=[{"iws": 3}], window=5, wu_unit=4, **W), {}))
         S.append(("up0-up1", uploads([0, 1]), dict(), {}))
         S.append(("up65535", uploads([65535]), dict(), {}))
         S.append(("up65536", uploads([65536]), dict(window=65535, wu_unit=70000), {}))
